@@ -72,7 +72,7 @@ def _spec(i):
 
 
 NSPEC = 7
-MUTS = ['origin_ref', 'value', 'units', 'data', 'window', 'shape', 'dtype', 'add', 'chunks', 'pin']
+MUTS = ['origin_ref', 'value', 'units', 'data', 'window', 'shape', 'dtype', 'add', 'chunks', 'pin', 'refused']
 EVENTS = [f'F{i}' for i in range(NSPEC)] + ['RW'] + [f'M:{m}' for m in MUTS] + ['HC+', 'HC-', 'HCX']
 
 
@@ -122,6 +122,12 @@ def mutation_ops(m, spec=None):
         # NO-FORMAT object (its records refer to it) are moved to the second origin
         hs = ['Z0', 'C1', 'F0'] + (['NF'] if spec and any(op.get('h') == 'NF' for op in spec['ops']) else [])
         return [{'op': 'origin_ref', 'h': h, 'value': 1} for h in hs], {}
+    if m == 'refused':
+        # calls that are REFUSED (run_history makes them; they are no part of the specification): a write whose index
+        # data are two-dimensional, an add_origin whose reference is taken and which names a new set; afterwards two
+        # origins are added, the second one to the set the refused call named, and a window is used for the next write
+        return [S.op_origin('O8', 'ORIGIN-LATER-1', set_name='LATER-SET'),
+                S.op_origin('O9', 'ORIGIN-LATER-2', set_name='REFUSED-SET')], {'from_idx': 1}
     if m == 'units':
         return [{'op': 'set', 'h': 'C0', 'attr': 'units', 'part': 'value', 'value': 'ft'}], {}
     if m == 'value':
@@ -257,6 +263,17 @@ def run_history(h):
                     continue
                 elif e.startswith('M:'):
                     ops, wkw = mutation_ops(e[2:], spec_now)
+                    if e == 'M:refused':
+                        import numpy as np
+                        try:
+                            built.df.write(path, output_chunk_size=2 ** 16,
+                                           data={'DEPTH': np.arange(9000.0, 9006.0).reshape(3, 2)})
+                            return ('harness', 'the write with two-dimensional index data was not refused')
+                        except Exception:  # noqa
+                            pass
+                        st = S.apply_op(built, S.op_origin('OX', 'REFUSED', origin_reference=1, set_name='REFUSED-SET'))
+                        if st == 'ok':
+                            return ('harness', 'add_origin with a taken reference was not refused')
                     for op in ops:
                         st = S.apply_op(built, op)
                         if st != 'ok':
